@@ -1,7 +1,7 @@
 (** Extraction of the reference interpreter.  Directives: ExtrOcamlBasic only (bool, option, unit,
     list, prod, sumbool, sumor -> OCaml natives); Z, positive, Q stay the extracted inductives. *)
 From Coq Require Import ZArith List QArith Qcanon.
-From Core Require Import Syntax Sem Wf PartialEval Transpose ShiftLoop DivideLoop ReorderLoops RemoveLoop UnrollLoop CutLoop.
+From Core Require Import Syntax Sem Wf PartialEval Transpose ShiftLoop DivideLoop ReorderLoops RemoveLoop UnrollLoop CutLoop FissionProc.
 Require Extraction.
 Require Import ExtrOcamlBasic.
 Extraction Language OCaml.
@@ -9,4 +9,4 @@ Extraction Language OCaml.
 Definition mk_qc (n : Z) (d : positive) : Qc := Q2Qc (Qmake n d).
 Definition qc_num (q : Qc) : Z := Qnum (this q).
 Definition qc_den (q : Qc) : positive := Qden (this q).
-Extraction "ocaml/interp.ml" run wf_proc pe_proc tr_proc shift_proc shift_ok_proc divide_guard_proc divide_guard_ok_proc divide_perfect_proc divide_perfect_ok_proc reorder_proc reorder_ok_proc remove_guard_proc remove_guard_ok_proc remove_splice_proc remove_splice_ok_proc unroll_proc unroll_ok_proc cut_proc cut_ok_proc mk_qc qc_num qc_den.
+Extraction "ocaml/interp.ml" run wf_proc pe_proc tr_proc shift_proc shift_ok_proc divide_guard_proc divide_guard_ok_proc divide_perfect_proc divide_perfect_ok_proc reorder_proc reorder_ok_proc remove_guard_proc remove_guard_ok_proc remove_splice_proc remove_splice_ok_proc unroll_proc unroll_ok_proc cut_proc cut_ok_proc fission_proc fission_ok_proc mk_qc qc_num qc_den.
